@@ -19,7 +19,7 @@ LEVEL = "exploration"
 RULE = (
     "A case is one seeded (DSDL namespace set, option set) pair - language x --generate-support x --omit-serialization-"
     "support x --generate-namespace-types x user --templates/--support-templates directories x extension/namespace-stem "
-    "overrides x lookup dependencies x path spellings - taken through: real run in a pristine directory, the three "
+    "overrides x external post-processor program x file mode x lookup dependencies x path spellings - taken through: real run in a pristine directory, the three "
     "listing/dry-run modes on the empty directory, the same under a whole-disk EROFS fault, a seeded dirtying history "
     "(other runs, chmod, foreign files), the three modes again and a real run on the dirty directory. Distinct = digest "
     "of (option set, dirtying op kinds); non-trivial = the real run succeeded and at least one listing mode was compared."
